@@ -5,7 +5,7 @@
 (* as TLA+ operators (property C16).  Glyph names are BYTE SEQUENCES       *)
 (* (tuples of 0..255), texts are sequences of Unicode scalar values.       *)
 (*                                                                         *)
-(*   ToText(name, dingbats)  section 2 of the specification, "Mapping     *)
+(*   ToText(name, dingbats)  section 2 of the specification, "Mapping      *)
 (*                           glyph names to character strings"             *)
 (*   FromScalar(r)           the name chosen for a character: through its  *)
 (*                           compatibility expansion, AGLFN name of each   *)
@@ -34,7 +34,7 @@
 (* (a TLA+ function built with CHOOSE per key over 4281 entries does not   *)
 (* finish in TLC).  The declarative meaning of a look-up is                *)
 (*    "the value of THE entry whose key equals the argument, if any";      *)
-(* AglTablesSorted (strictly increasing keys, hence unique) makes the       *)
+(* AglTablesSorted (strictly increasing keys, hence unique) makes the      *)
 (* binary search equal to it; TLC checks it in MC_AGL, family selfcheck.   *)
 (***************************************************************************)
 EXTENDS Integers, Sequences, FiniteSets, AGLData
@@ -186,9 +186,11 @@ Valid(n) == \/ n = AglNotdef
 (*    (b) ExpandInjective                  -- by AglCompatWellFormed:      *)
 (*        expansions have length >= 2 (so never equal to some <<r>>) and   *)
 (*        are pairwise different.                                          *)
-(* TLC checks (b) on the table (selfcheck) and (a) scalar by scalar.  For  *)
-(* the library's actual names the harness additionally sorts all of them   *)
-(* and compares neighbours (trace-agl, field dup_names).                   *)
+(* TLC checks (b) on the table (MC_AGL!CompatCheck, together with          *)
+(* InjectiveByCount on every table-related scalar) and (a) scalar by       *)
+(* scalar (TraceAGL, code spec-roundtrip).  For the library's actual names *)
+(* the harness additionally sorts all of them and compares neighbours      *)
+(* (vh trace-agl, field dup_names).                                        *)
 (***************************************************************************)
 RoundTrip(r, dingbats) == ToText(FromScalar(r), dingbats) = Expand(r)
 Injective(S) == \A r1, r2 \in S : r1 # r2 => FromScalar(r1) # FromScalar(r2)
